@@ -310,6 +310,49 @@ let do_judgesearch (t : string list) : string =
    | _ -> add "answer-malformed");
   if !bad = [] then "OK" else "BAD " ^ String.concat " " (List.rev !bad)
 
+(* judgemate <game> @ <answer of one search>: C11 on every info line with a mate score, plus the mate-in-one clause *)
+let do_judgemate (t : string list) : string =
+  let (gt, ans) = split_on "@" t in
+  let g = parse_game (Array.of_list gt) 0 in
+  let text = String.concat " " ans in
+  let bad = ref [] and notes = ref [] in
+  let add s = bad := s :: !bad in
+  (match split_str " || " text with
+   | native :: _ ->
+     let lines = List.filter (fun l -> String.trim l <> "") (split_str " ;; " native) in
+     let m1 = spec_mates_in (n_of_int 1) g in
+     let last_info = ref None and maxdepth = ref 0 in
+     List.iter (fun l ->
+       match words l with
+       | "info" :: "score" :: kind :: v :: "depth" :: d :: rest ->
+         let rec pv = function "pv" :: r -> r | _ :: r -> pv r | [] -> [] in
+         let ms = List.filter_map smove_of_uci (pv rest) in
+         last_info := Some (kind, int_of_string v, ms); maxdepth := int_of_string d;
+         if kind = "mate" then begin
+           let n = int_of_string v in
+           if n = 0 then (if not (spec_mated_in (n_of_int 0) g) then add "C11:false-mate-0")
+           else if abs n <= 2 then begin
+             if n > 0 && not (spec_mates_in (n_of_int n) g) then add (Printf.sprintf "C11:false-mate+%d" n);
+             if n < 0 && not (spec_mated_in (n_of_int (- n)) g) then add (Printf.sprintf "C11:false-mate%d" n)
+           end else notes := "unchecked-distance" :: !notes;
+           if spec_legal_line g ms && spec_line_mates g ms then begin
+             let want = if n > 0 then 2 * n - 1 else 2 * (- n) in
+             if List.length ms <> want then add (Printf.sprintf "C11:pv-length(%d,mate %d)" (List.length ms) n)
+           end
+         end
+       | ["bestmove"; u] ->
+         if m1 && !maxdepth >= 3 then begin
+           (match !last_info with
+            | Some ("mate", 1, _) -> ()
+            | _ -> add "C11:mate-in-one-not-reported");
+           (match smove_of_uci u with
+            | Some m -> if not (spec_legal_line g [m] && spec_line_mates g [m]) then add "C11:mate-in-one-not-played"
+            | None -> add "C11:mate-in-one-not-played")
+         end
+       | _ -> ()) lines
+   | [] -> add "answer-malformed");
+  if !bad = [] then "OK" ^ (if !notes <> [] then " " ^ String.concat " " !notes else "") else "BAD " ^ String.concat " " (List.rev !bad)
+
 let do_eval (t : string list) : string = string_of_z (evaluate (parse_game (Array.of_list t) 0))
 
 let () =
@@ -330,6 +373,9 @@ let () =
        | "judge" :: r -> print_endline (do_judge r)
        | "searchseq" :: r -> print_endline (do_searchseq r)
        | "judgesearch" :: r -> print_endline (do_judgesearch r)
+       | "judgemate" :: r -> print_endline (do_judgemate r)
+       | "minimax" :: d :: r -> print_endline (string_of_z (minimax_fast (parse_game (Array.of_list r) 0) (n_of_string d)))
+       | "matesin" :: n :: r -> print_endline (b2s (spec_mates_in (n_of_string n) (parse_game (Array.of_list r) 0)))
        | "wf" :: r -> print_endline (b2s (wf (parse_game (Array.of_list r) 0)))
        | "specperft" :: r -> print_endline (do_specperft r)
        | "perft" :: d :: r -> print_endline (string_of_n (perft_n (n_of_string d) (parse_game (Array.of_list r) 0)))
